@@ -11,7 +11,8 @@ AllLists == UNION {ListsOfLen(n) : n \in 0..BuildLen}
 \* a few edge vectors for the merge / view configurations (LEN = 2)
 FixedLists == IF LEN = 2
               THEN {<<"pz", "one", "two">>, <<"nz", "one", "two">>, <<"ninf", "pz", "pinf">>,
-                    <<"pz", "pz", "one">>, <<"m1", "one", "one">>, <<"pz", "nan", "two">>}
+                    <<"pz", "pz", "one">>, <<"m1", "one", "one">>, <<"pz", "nan", "two">>,
+                    <<"pz", "one_up", "two">>, <<"tiny", "one", "two">>}
               ELSE IF LEN = 1 THEN {<<"pz", "one">>, <<"nz", "one">>, <<"ninf", "pinf">>, <<"one", "one">>}
               ELSE {<<"m1", "pz", "one", "two">>, <<"m1", "nz", "one", "two">>, <<"ninf", "pz", "pz", "pinf">>}
 
